@@ -132,7 +132,16 @@ func buildCase(typ operation.Type, tamper int, code uint, suffix string) *stepCa
 	good := gen.KeyPatch("kp")
 	c.patches = []patch.Patch{good}
 	if tamper == tInapplicable {
-		c.patches = []patch.Patch{failingJSONPatch()}
+		// the failing patch alone, behind a good one, or in front of a patch that would make up for it (a replace
+		// discards what came before, but the delta is still not applicable)
+		switch verifrt.Choose("inapplicable-shape", 3) {
+		case 0:
+			c.patches = []patch.Patch{failingJSONPatch()}
+		case 1:
+			c.patches = []patch.Patch{good, failingJSONPatch()}
+		default:
+			c.patches = []patch.Patch{failingJSONPatch(), gen.ReplacePatch("rp")}
+		}
 	}
 	if tamper == tDeltaInvalid {
 		c.patches = nil
